@@ -396,6 +396,20 @@ func (g *G) objLit(depth int) *N {
 	n := g.t.Intn(3)
 	keys := []string{"a", "b", "c", "a"}
 	for i := 0; i < n; i++ {
+		if g.noBrace == 0 && g.t.Chance(1, 5) {
+			// computed key "k#{e}" with a constant value (slots on one side of the pair only)
+			g.noBrace++
+			key := &N{K: KEmb, L: []*N{g.intExpr(depth, "obj/key")}, Lits: []string{"k", ""}}
+			g.noBrace--
+			o.L = append(o.L, &N{K: KInt, Int: int64(g.t.Intn(10))})
+			o.Names = append(o.Names, "")
+			o.Star = append(o.Star, 0)
+			for len(o.Keys) < len(o.L)-1 {
+				o.Keys = append(o.Keys, nil)
+			}
+			o.Keys = append(o.Keys, key)
+			continue
+		}
 		o.L = append(o.L, g.anyExpr(depth, "obj/value"))
 		o.Names = append(o.Names, keys[g.t.Intn(len(keys))])
 		o.Star = append(o.Star, 0)
